@@ -70,6 +70,164 @@ def close_scaled(a, b):
 
 
 # ------------------------------------------------------------------------------------------
+# the "vals" stream: cell values that are arbitrary Python objects. The property says "exactly the values last written",
+# whatever they are; a value is described in a case by a JSON spec, made by mk_val, and observed as a TOKEN (vtok):
+#   numbers (bool, int, float, numpy scalars) by VALUE (`True == 1 == 1.0 == np.float64(1)`: one token, so a change of the
+#   number's type is not judged), NaN as one token; a str by its characters; any other object by type name and repr
+# ------------------------------------------------------------------------------------------
+from fractions import Fraction
+
+VAL_POOL = [["none"], ["none"], ["none"], ["bool", True], ["bool", False], ["int", "0"], ["int", "3"], ["int", "-7"],
+            ["int", str(2 ** 70 + 1)], ["float", "0.0"], ["float", "0.1"], ["float", "-2.5"], ["float", "nan"], ["float", "inf"],
+            ["str", "s"], ["str", ""], ["str", "#0"], ["str", "a"], ["str", "x"], ["str", "0.0"], ["str", "None"], ["str", "é b"],
+            ["np", "float64", "2.5"], ["np", "int32", "3"], ["np", "bool_", "1"], ["np", "float32", "0.5"],
+            ["complex", 1.0, 2.0], ["bytes", "6162"]]
+
+
+def mk_val(spec):
+    k = spec[0]
+    if k == "none":
+        return None
+    if k == "bool":
+        return bool(spec[1])
+    if k == "int":
+        return int(spec[1])
+    if k == "float":
+        return float(spec[1])
+    if k == "str":
+        return str(spec[1])
+    if k == "np":
+        return getattr(np, spec[1])(float(spec[2]) if "float" in spec[1] else int(spec[2]))
+    if k == "complex":
+        return complex(spec[1], spec[2])
+    if k == "bytes":
+        return bytes.fromhex(spec[1])
+    raise ValueError(spec)
+
+
+def vtok(v):
+    """Python object -> token (protocol-safe: letters, digits, - / only)"""
+    if isinstance(v, (bool, np.bool_)):
+        return "n1" if v else "n0"
+    if isinstance(v, (int, np.integer)):
+        return "n%d" % int(v)
+    if isinstance(v, (float, np.floating)):
+        f = float(v)
+        if f != f:
+            return "nnan"
+        if math.isinf(f):
+            return "ninf" if f > 0 else "n-inf"
+        return "n%s" % Fraction(f)
+    if isinstance(v, str):
+        return "s" + v.encode("utf-8").hex()
+    return "o" + ("%s:%r" % (type(v).__name__, v))[:200].encode("utf-8").hex()
+
+
+VTOK_RE = re.compile(r"'(s(?:[0-9a-f]{2})+|o(?:[0-9a-f]{2})+|n-?[0-9]+(?:/[0-9]+)?|nnan|ninf|n-inf)'")
+
+
+def untok_text(msg):
+    """tokens in a message -> readable values"""
+    def f(m):
+        t = m.group(1)
+        if t[0] == "n":
+            return t[1:]
+        txt = bytes.fromhex(t[1:]).decode("utf-8", "replace")
+        return repr(txt) if t[0] == "s" else "<" + txt + ">"
+    return VTOK_RE.sub(f, msg)
+
+
+DELETE_TOK = "s" + "#DELETE".encode().hex()
+
+
+class VTab:
+    """the oracle's table of the vals stream: name -> list of tokens, coordinates as tokens"""
+    def __init__(self, n):
+        self.n = n
+        self.cols = {}
+        self.X = [vtok(10.0 + i) for i in range(n)]
+        self.Y = [vtok(20.0 + 2 * i) for i in range(n)]
+        self.Z = [vtok(30.0 + 3 * i) for i in range(n)]
+        self.T = [vtok(1000.0 + i) for i in range(n)]
+
+
+def vcol(n, kind, val):
+    """the column a scalar / list argument stands for (None: a list shorter than the track - no expectation)"""
+    if kind == "s":
+        return [vtok(mk_val(val))] * n
+    l = [vtok(mk_val(v)) for v in val]
+    return l[:n] if len(l) >= n else None
+
+
+def expected_v(tab, op):
+    """vals stream: what a successful call must have done, from the documented meaning of the call (same shape as expected_)"""
+    n = tab.n
+    k = op[0]
+    e = {"cols": {}, "drop": set(), "coord": {}, "ret": "-", "scaled": False}
+    if n == 0:
+        return None
+    if k == "create":
+        if op[1] is None:
+            return None                    # None is not a feature name: no expectation on the outcome - nothing may change (no target)
+        if op[1] in RESERVED:
+            return None
+        if op[1] in tab.cols:
+            return e                       # creating an existing feature writes nothing
+        if op[2] == "d":
+            return None                    # no value given: whatever the default is, only the target may appear
+        c = vcol(n, op[2], op[3])
+        if c is None:
+            return None
+        e["cols"][op[1]] = c
+        return e
+    if k in ("update", "setitem"):
+        if op[1] in RESERVED or (k == "update" and op[1] not in tab.cols):
+            return None
+        c = vcol(n, op[2], op[3])
+        if c is None:
+            return None
+        e["cols"][op[1]] = c
+        return e
+    if k == "remove":
+        if op[1] not in tab.cols:
+            return None
+        e["drop"].add(op[1])
+        return e
+    if k == "setobs":
+        if op[1] not in tab.cols or op[2] >= n:
+            return None
+        c = list(tab.cols[op[1]])
+        c[op[2]] = vtok(mk_val(op[3]))
+        e["cols"][op[1]] = c
+        return e
+    if k == "addaf":
+        if op[1] in RESERVED:
+            return None
+        c = [vtok(mk_val(op[2]))] * n
+        e["cols"][op[1]] = c
+        e["ret"] = ("c", c)
+        return e
+    if k == "rev":
+        out = op[2] if op[2] is not None else op[1]
+        if op[1] not in tab.cols or out in RESERVED:
+            return None
+        e["cols"][out] = tab.cols[op[1]][::-1]
+        return e
+    if k == "expr":
+        lhs, ast = parse_expr(op[1])
+        if lhs is None or lhs in RESERVED or lhs.isdigit() or any(nm.startswith("#") for nm in tab.cols):
+            return None
+        if ast[0] == "name" and ast[1] in tab.cols:
+            e["cols"][lhs] = list(tab.cols[ast[1]])
+            return e
+        if ast[0] == "num" and str(ast[1]) not in tab.cols:
+            e["cols"][lhs] = [vtok(float(ast[1]))] * n
+            return e
+        return None
+    raise ValueError(k)
+
+
+# ------------------------------------------------------------------------------------------
 # names across the driver protocol: [A-Za-z0-9#]+ as it is, anything else as '|' + hex(UTF-8)
 # ------------------------------------------------------------------------------------------
 PLAIN = re.compile(r"^[A-Za-z0-9#]+$")
@@ -400,7 +558,7 @@ def op_targets(op):
             out |= op_targets(sub)
         return out
     if k in ("create", "update", "setitem", "remove", "setobs", "addaf"):
-        return {op[1]}
+        return {op[1]} if op[1] is not None else set()
     if k == "uvoid":
         return {op[3] if op[3] is not None else op[2]}
     if k == "bvoid":
@@ -831,6 +989,11 @@ class P(Prop):
         ("TracklibVerif.Props.C01Call", "TV.C01.call_frame", "no side effects for a call in any form, returning or raising: a name none of its positions designates reads as before and stays listed / unlisted"),
         ("TracklibVerif.Props.C01Call", "TV.C01.list_form_is_history", "the list form is the history of its single calls cut after the first one that raises: same state, returns nothing when all return, else raises what that call raises"),
         ("TracklibVerif.Props.C01Call", "TV.C01.call_keeps_listed", "nothing disappears behind the caller's back: a call in any form that is not a deleting call (remove / '#DELETE', computeAbsCurv, operate(str)) unlists nothing, returning or raising - an operator failing mid-way with an existing output feature included (what the seeded change C01-9 broke)"),
+        ("TracklibVerif.Props.C01Front", "TV.C01.createFront_is_create", "createAnalyticalFeature(name, v) hands v itself to the table primitive - the default 0.0 only when no second argument is given; name=None does nothing"),
+        ("TracklibVerif.Props.C01Front", "TV.C01.createFront_reads_value", "createAnalyticalFeature(new name, v) for EVERY cell value v (any type V of values: None, bool, str, numpy scalars ... - what the seeded change C01-11 broke): the name reads v at every observation, every other name reads as before"),
+        ("TracklibVerif.Props.C01Front", "TV.C01.bracket_reads_value", "track[name] = v for every value v other than '#DELETE', new name (create path) or listed name (update path) alike: the name reads exactly the values given, every other name reads as before"),
+        ("TracklibVerif.Props.C01Front", "TV.C01.bracket_delete_is_remove", "track[name] = '#DELETE' is removeAnalyticalFeature(name)"),
+        ("TracklibVerif.Props.C01Front", "TV.C01.fcall_refines", "a call that goes through the front ends (default argument, name=None, '#DELETE') keeps the table aligned and does what it does on the name -> column specification"),
         ("TracklibVerif.Props.C01World", "TV.C01.derive_copy_is_copies", "Track.copy() (deepcopy with its memo) of a track of pairwise distinct objects makes one new object per position, like the copies above"),
     ]
     partial = []
@@ -853,6 +1016,11 @@ class P(Prop):
         "model (Model/FeaturesWorld.lean) runs them and the correspondence compares every track of the session, but the theorems need pairwise distinct "
         "objects within the track and, for 'the other track is unchanged', disjoint tracks - for shared objects alignment does fail (finding "
         "derived-track-shares-observations; Props/C01World.lean shows the failing states as examples)",
+        "cell values of any type: the theorems are for every type V of values and every interpretation of the arithmetic, so they cover None, bool, str, "
+        "numpy scalars ... as cell values; that the Python write paths really hand the object given to the table (no conversion, no sentinel: what the seeded "
+        "change C01-11 broke) is checked by the correspondence at V := String (stream 'vals', calls that only move values) and by the oracle, and proved "
+        "for the modelled front ends (Props/C01Front.lean); arithmetic ON non-numbers (None + 1 raises TypeError mid-way) is not run against the model - "
+        "the theorems cover it as 'the cell function raises'; object values carried through copy / extract / + are not generated",
         "the copying derivations are proved at the level of the object references (Obs.copy() = a new object equal to the old one); that copy.deepcopy "
         "really copies the features list is what the seeded change C01-7 broke: it is checked by the correspondence with the heap model and by the oracle, not proved",
     ]
@@ -870,7 +1038,9 @@ class P(Prop):
                 "on a heap of Obs objects (Model/FeaturesWorld.lean: a track = references + dict, every primitive of the API as a loop over the objects found at the positions): "
                 "Track.copy, extract, __getitem__(slice), __add__, extractSpanTime, loop(add=True), addObs / insertObs of Obs.copy(), Obs.copy; "
                 "table effect only (values opaque) of Convolution, Filter_FFT, Square, Inverter, ShiftCircular (object form) and of the non-void "
-                "Min, Argmax, Zeros, Median, Aggregate, Equal")
+                "Min, Argmax, Zeros, Median, Aggregate, Equal; "
+                "the argument handling of createAnalyticalFeature (default val_init, name=None) and of __setitem__ ('#DELETE') (Model/FeaturesFront.lean), run at "
+                "V := String (one token per Python object: None, bool, int, float, str, numpy scalars, complex, bytes) for the calls that only move values")
     trusted = ["operators with opaque values (CONVOLUTION, FILTER_FFT - numpy results -, SQUARE, INVERTER, SHIFT_CIRCULAR object form): the model is handed the list the "
                "implementation returned and models where it is written; the oracle recomputes the values from the operator's definition (direct sums, no FFT) "
                "and checks that every stored cell is one number",
@@ -882,6 +1052,9 @@ class P(Prop):
                "heap model (world sessions): in states where WHICH value a name reads depends on where the columns sit in the observations - a track that shares its "
                "observations with a derived track after calls on that track, the sum of two tracks whose listings differ only in order, a sum that starts misaligned "
                "(both inside the known-finding classes) - outcome, listed names, values per observation and coordinates are compared, not the column values",
+               "stream 'vals' (model at V := String): a Python object is identified with its token - numbers by value (True = 1 = 1.0 = np.float64(1): the type of a "
+               "number is not compared), NaN as one token, a str by its characters, any other object (None, complex, bytes) by type name and repr; `add sub mul` of that "
+               "instance are never reached by the calls admitted there",
                "never generated: 'timestamp' as an operand, assignment to 't', '!' , NaN thresholds of segmentation, CONVOLUTION / FILTER_FFT in the same history as "
                "the operators whose Python arithmetic raises (numpy scalars stored by the former never raise)"]
     rule = ("histories of API calls on tracks of 0..5 observations, values small integers (as floats) and NaN; after EVERY call: listed names, every column, every "
@@ -894,6 +1067,10 @@ class P(Prop):
             "by copy / extract / slice / + / extractSpanTime (bounds in either order or given as a track) / loop(add=True) / addObs or insertObs of an Obs.copy() (t[i], getObs, getFirstObs, getLastObs) "
             "from a track with 0..5 earlier calls, then a history on it, then (copy, extractSpanTime) a history on the source again, all tracks observed before and after and the whole session replayed on the heap model; 'short': a list initialiser shorter than the track in the middle of a history (refused / partial overwrite), also sprinkled in every stream; "
             "list forms of operate (1-3 positions, with / without output names, every void family; SUM / aggregates refused) sprinkled in every random stream; "
+            "'vals': every history of length 2 (thorough: 3) over a 14-call alphabet and random histories to depth 25 of the calls that only MOVE values (create with / without "
+            "second argument / name=None, update, bracket assignment, setObs in three forms, both deletes, a constant algorithm, REVERSER, the copy lhs=rhs) with cell values "
+            "None, True/False, ints beyond 2**64, floats, NaN, inf, strings ('' '#0' 'x' '0.0' 'None' non-ASCII), numpy float64/float32/int32/bool_, complex, bytes - read back "
+            "through every path and compared by VALUE (numbers: ==, so the number's type is free; other objects: type and repr); "
             "empty track. A call that raises although all its operands exist and it is well formed is a failure; a call the oracle has no expectation for "
             "(it raised, or its arithmetic is out of the oracle's scope) may have written or created its target, nothing else, and may not have unlisted it "
             "unless it is remove / '#DELETE' of that name, a '#' name under operate(str), or 'ds' under computeAbsCurv; an observation point that raises is a "
@@ -943,8 +1120,11 @@ class P(Prop):
 
     def exhaustive_scopes(self, tier):
         d = 4 if tier == "thorough" else 3
+        dv = 3 if tier == "thorough" else 2
         return ["every history of length %d over the %d-call alphabet P.ALPHABET on a track of 2 observations (%d histories, observed after every call)"
-                % (d, len(self.ALPHABET), len(self.ALPHABET) ** d)]
+                % (d, len(self.ALPHABET), len(self.ALPHABET) ** d),
+                "every history of length %d over the %d-call alphabet P.VALPHABET (cell values None / bool / str / int / float, every write path) on a track "
+                "of 2 observations (%d histories, observed after every call)" % (dv, len(self.VALPHABET), len(self.VALPHABET) ** dv)]
 
     NAMES = ["a", "b", "c", "#0", "#u"]
     # every name an accessor could treat specially, and names that stress the name -> column map and the protocol:
@@ -1185,6 +1365,57 @@ class P(Prop):
         finally:
             self.pool, self.rich = None, False
 
+    # ---- the "vals" stream: histories of the calls that only MOVE values (create / update / bracket assignment / setObs / delete /
+    # a constant algorithm / REVERSER / the copy `lhs=rhs`), the values being arbitrary Python objects (VAL_POOL)
+    VNAMES = ["a", "b", "c", "d"]
+    VALPHABET = [
+        ["create", "a", "s", ["none"]], ["create", "b", "s", ["str", "s"]], ["create", "a", "d"], ["create", "c", "l", [["none"], ["bool", True]]],
+        ["setitem", "a", "s", ["none"]], ["setitem", "b", "s", ["float", "0.1"]], ["setitem", "b", "l", [["int", "3"], ["none"]]],
+        ["update", "a", "s", ["bool", False]], ["remove", "a", "m"], ["remove", "b", "b"],
+        ["setobs", "a", 1, ["none"], "b"], ["addaf", "c", ["none"], "m"], ["rev", "b", None], ["expr", "c=a", "m"],
+    ]
+
+    def rand_vval(self, rng):
+        return rng.choice(VAL_POOL)
+
+    def rand_varg(self, rng, n):
+        if rng.random() < 0.55:
+            return ["s", self.rand_vval(rng)]
+        extra = rng.choice([0, 0, 0, 1]) if (n == 0 or rng.random() < 0.93) else -rng.randrange(1, n + 1)   # sometimes too short
+        return ["l", [self.rand_vval(rng) for _ in range(n + extra)]]
+
+    def rand_vop(self, rng, n):
+        def name(special=True):
+            r = rng.random()
+            if r < 0.9 or not special:
+                return rng.choice(self.VNAMES if r < 0.8 else ["a", "zz"])
+            return rng.choice(["x", "idx", "t", "timestamp"])
+        r = rng.random()
+        if r < 0.22:
+            nm = None if rng.random() < 0.03 else name()
+            if rng.random() < 0.1:
+                return ["create", nm, "d"]
+            return ["create", nm] + self.rand_varg(rng, n)
+        if r < 0.42:
+            return ["setitem", name()] + self.rand_varg(rng, n)
+        if r < 0.53:
+            return ["update", name()] + self.rand_varg(rng, n)
+        if r < 0.65:
+            return ["remove", name(), rng.choice("mb")]
+        if r < 0.77:
+            i = rng.randrange(0, n) if (n > 0 and rng.random() < 0.93) else n
+            return ["setobs", name(False), i, self.rand_vval(rng), rng.choice("mbr")]
+        if r < 0.84:
+            return ["addaf", name(False), self.rand_vval(rng), rng.choice("mb")]
+        if r < 0.91:
+            return ["rev", name(False), rng.choice([None, None] + self.VNAMES)]
+        lhs = rng.choice(self.VNAMES)
+        rhs = rng.choice(self.VNAMES + self.VNAMES + [lhs, "3", "nosuch"])
+        return ["expr", lhs + "=" + rhs, rng.choice("mmg")]
+
+    def gen_vals(self, rng, n, depth):
+        return {"kind": "vals", "n": n, "ops": [self.rand_vop(rng, n) for _ in range(depth)]}
+
     def cases(self, rng, tier):
         out = []
         A = self.ALPHABET
@@ -1225,6 +1456,17 @@ class P(Prop):
             ops.append([rng.choice(["create", "update", "setitem"]), rng.choice(["a", "b", "c"]), "l", short])
             ops += self.gen_history(rng, n, rng.choice([1, 3]), None, False)
             out.append({"kind": "short", "n": n, "ops": ops})
+        # cell values that are arbitrary Python objects (None, bool, str, numpy scalars, big ints ...): every history of length 2
+        # (thorough: 3) over P.VALPHABET, then random ones
+        def recv(prefix, k):
+            if k == 0:
+                out.append({"kind": "vals", "n": 2, "ops": prefix})
+                return
+            for op in self.VALPHABET:
+                recv(prefix + [op], k - 1)
+        recv([], 2 if q else 3)
+        for _ in range(1200 if q else 12000):
+            out.append(self.gen_vals(rng, rng.choice([0, 1, 2, 2, 3, 3, 4]), rng.choice([2, 4, 8, 14, 25])))
         # empty track
         for _ in range(100 if q else 1000):
             out.append({"kind": "empty", "n": 0, "ops": self.gen_history(rng, 0, rng.choice([1, 3, 6]), None, rng.random() < 0.3)})
@@ -1586,8 +1828,153 @@ class P(Prop):
         self._t2 = t2
         return t + t2
 
+    # ---- the vals stream on the implementation
+    def call_v(self, t, op):
+        k = op[0]
+        if k == "create":
+            if op[2] == "d":
+                return t.createAnalyticalFeature(op[1])
+            return t.createAnalyticalFeature(op[1], self.mk_varg(op[2], op[3]))
+        if k == "update":
+            return t.updateAnalyticalFeature(op[1], self.mk_varg(op[2], op[3]))
+        if k == "setitem":
+            t[op[1]] = self.mk_varg(op[2], op[3])
+            return None
+        if k == "remove":
+            if op[2] == "b":
+                t[op[1]] = "#DELETE"
+                return None
+            return t.removeAnalyticalFeature(op[1])
+        if k == "setobs":
+            v = mk_val(op[3])
+            if op[4] == "b":
+                t[op[1], op[2]] = v
+            elif op[4] == "r":
+                t[op[2], op[1]] = v
+            else:
+                t.setObsAnalyticalFeature(op[1], op[2], v)
+            return None
+        if k == "addaf":
+            v = mk_val(op[2])
+            f = lambda trk, i: v
+            if op[3] == "b":
+                t[op[1]] = f
+                return "-"
+            return t.addAnalyticalFeature(f, op[1])
+        if k == "rev":
+            O = self.Operator
+            return t.operate(O.REVERSER, op[1]) if op[2] is None else t.operate(O.REVERSER, op[1], op[2])
+        if k == "expr":
+            if op[2] == "g":
+                return t[op[1]]
+            return t.operate(op[1])
+        raise ValueError(k)
+
+    @staticmethod
+    def mk_varg(kind, val):
+        return mk_val(val) if kind == "s" else [mk_val(v) for v in val]
+
+    def observe_v(self, t):
+        """the observation points of the property with every value as a token (vtok): any Python object is a legitimate cell value"""
+        try:
+            names = list(t.getListAnalyticalFeatures())
+            cols = {}
+            cells_ok = True
+            for nm in names:
+                try:
+                    c = [vtok(v) for v in t.getAnalyticalFeature(nm)]
+                    cols[nm] = c
+                    for i in range(len(c)):
+                        got = [vtok(t.getObsAnalyticalFeature(nm, i)), vtok(t[nm, i]), vtok(t[i, nm]), vtok(t.getObsAnalyticalFeatures([nm], i)[0])]
+                        if any(g != c[i] for g in got):
+                            cells_ok = "cell %d of %r: column read %r, per-observation reads %r" % (i, nm, c[i], got)
+                            break
+                    if [vtok(v) for v in t.getAnalyticalFeatures([nm])[0]] != c:
+                        cells_ok = "getAnalyticalFeatures([%r]) differs from getAnalyticalFeature" % nm
+                    if nm and nm == nm.strip() and not (set(nm) & self.ROUTED):
+                        if [vtok(v) for v in t[nm]] != c:
+                            cells_ok = "track[%r] differs from getAnalyticalFeature" % nm
+                    if not t.hasAnalyticalFeature(nm):
+                        cells_ok = "hasAnalyticalFeature(%r) is False for a listed name" % nm
+                except BaseException as e:
+                    cols[nm] = self.err_of(e)
+            return {"names": names, "cols": cols, "rowlens": [len(o.features) for o in t.getObsList()], "bad_cells": [],
+                    "X": [vtok(v) for v in t.getX()], "Y": [vtok(v) for v in t.getY()], "Z": [vtok(v) for v in t.getZ()],
+                    "T": [vtok(v) for v in t.getT()], "cells_ok": cells_ok}
+        except BaseException as e:
+            if isinstance(e, KeyboardInterrupt):
+                raise
+            return {"names": [], "cols": {}, "rowlens": [], "bad_cells": [], "X": [], "Y": [], "Z": [], "T": [], "cells_ok": True,
+                    "observe_err": "%s (%s)" % (self.err_of(e), str(e)[:120])}
+
+    def run_vops(self, t, ops):
+        steps = []
+        for op in ops:
+            self.vop_token(op)             # a malformed case (value spec, op layout) raises HERE: a harness error, not an exception of the call
+            try:
+                r = self.call_v(t, op)
+                out = "ok"
+                if r is None or isinstance(r, str):
+                    ret = "-"
+                elif isinstance(r, (list, tuple, np.ndarray)):
+                    ret = ["c", [vtok(v) for v in r]]
+                else:
+                    ret = ["n", vtok(r)]
+            except BaseException as e:
+                if isinstance(e, KeyboardInterrupt):
+                    raise
+                out, ret = self.err_of(e), "-"
+            ob = self.observe_v(t)
+            ob["out"], ob["ret"] = out, ret
+            steps.append(ob)
+        return steps
+
+    def vop_token(self, op):
+        k = op[0]
+        o = lambda x: enc(x) if x is not None else ""
+        arg = lambda kind, val: "%s:%s" % (kind, vtok(mk_val(val)) if kind == "s" else (",".join(vtok(mk_val(v)) for v in val) or "_"))
+        if k == "create":
+            nm = "!" if op[1] is None else enc(op[1])
+            return "create:%s:d" % nm if op[2] == "d" else "create:%s:%s" % (nm, arg(op[2], op[3]))
+        if k in ("update", "setitem"):
+            return "%s:%s:%s" % (k, enc(op[1]), arg(op[2], op[3]))
+        if k == "remove":
+            # the bracket form `t[name] = "#DELETE"` goes through the model's front end of __setitem__
+            return "remove:%s" % enc(op[1]) if op[2] == "m" else "setitem:%s:s:%s" % (enc(op[1]), DELETE_TOK)
+        if k == "setobs":
+            return "setobs:%s:%d:%s" % (enc(op[1]), op[2], vtok(mk_val(op[3])))
+        if k == "addaf":
+            return "addaf:%s:const:%s" % (enc(op[1]), vtok(mk_val(op[2])))
+        if k == "rev":
+            return "rev:%s:%s" % (enc(op[1]), o(op[2]))
+        if k == "expr":
+            return "expr:" + ",".join(t if (t == "=" or t.isdigit() and t.isascii()) else enc(t) for t in expr_rpn(op[1]))
+        raise ValueError(k)
+
+    @staticmethod
+    def parse_block_v(b):
+        f = b.split("~")
+        if len(f) != 9:
+            raise ValueError("bad block %r" % b[:80])
+
+        def toks(s):
+            return [] if s == "_" else s.split(",")
+        names = [] if f[2] == "_" else [dec(x) for x in f[2].split(",")]
+        colstr = [] if f[3] == "_" else f[3].split(";")
+        if len(names) == 1 and f[3] == "_":
+            colstr = ["_"]
+        cols = {}
+        for nm, cs in zip(names, colstr):
+            cols[nm] = cs if cs.startswith("err") or cs == "unsupported" else toks(cs)
+        ret = "-" if f[1] == "-" else ["n", f[1][1:]] if f[1][0] == "n" else ["c", toks(f[1][1:])]
+        return {"out": f[0], "ret": ret, "names": names, "cols": cols,
+                "rowlens": [] if f[4] == "_" else [int(x) for x in f[4].split(",")],
+                "X": toks(f[5]), "Y": toks(f[6]), "Z": toks(f[7]), "T": toks(f[8])}
+
     def impl(self, case):
         t = self.mk_track(case["n"])
+        if case["kind"] == "vals":
+            return {"steps": self.run_vops(t, case["ops"])}
         if case["kind"] == "carry":
             pre = self.run_ops(t, case["pre"])
             self._t2 = None
@@ -1752,6 +2139,13 @@ class P(Prop):
         return names
 
     def requests(self, case):
+        if case["kind"] == "vals":
+            if not case["ops"]:
+                return []
+            vt = VTab(case["n"])
+            head = " ".join(",".join(c) or "_" for c in (vt.X, vt.Y, vt.Z, vt.T))
+            body = " ".join(self.vop_token(op) for op in case["ops"])
+            return ["C01.vrun %s %s" % (head, body), "C01.varun %s %s" % (head, body)]
         tb = Tab(case["n"])
         head = " ".join(tokl(c) for c in (tb.X, tb.Y, tb.Z, tb.T))
         if case["kind"] == "carry":
@@ -1855,6 +2249,11 @@ class P(Prop):
         for r in replies:
             if r == "bad-request":
                 raise ValueError("driver refused the request")
+        if case["kind"] == "vals":
+            if not case["ops"]:
+                return {"steps": [], "asteps": []}
+            blocks = [[self.parse_block_v(b) for b in r.split(" ")] for r in replies]
+            return {"steps": blocks[0], "asteps": blocks[1]}
         world = None
         if case["kind"] == "carry":
             world = [[self.parse_block(b) for b in g.split("^")] for g in replies[-1].split(" ")]
@@ -2057,8 +2456,9 @@ class P(Prop):
             return nm == "ds"
         return False
 
-    def spec_ops(self, tab, ops, steps, label=""):
+    def spec_ops(self, tab, ops, steps, label="", exp=None):
         n = tab.n
+        exp = exp or expected
         for k, op in enumerate(ops):
             ob = steps[k]
             where = "%safter call %d %s (%s): " % (label, k, op, ob["out"])
@@ -2085,7 +2485,7 @@ class P(Prop):
                 return where + "observation %d stores a %s in feature column %d: not one value per listed feature" % (i, ty, j)
             tg = op_targets(op)
             hashy = op[0] == "expr"
-            e = expected(tab, op)
+            e = exp(tab, op)
             if e is not None and ob["out"] != "ok":
                 lost = [nm for nm in tg if nm in tab.cols and nm not in names]
                 return where + "the call raised although every operand exists and the call is well formed (expected to write %s)%s" % (
@@ -2169,6 +2569,9 @@ class P(Prop):
             # (building the fresh track, bookkeeping) - a harness error (the engine reports an oracle crash), never a violation
             raise RuntimeError("harness could not run the history: %s" % out)
         n = case["n"]
+        if case["kind"] == "vals":
+            msg = self.spec_ops(VTab(n), case["ops"], out["steps"], exp=expected_v)
+            return untok_text(msg) if msg else None
         tab = Tab(n)
         if case["kind"] != "carry":
             msg = self.spec_ops(tab, case["ops"], out["steps"])
@@ -2288,6 +2691,12 @@ class P(Prop):
         n = case["n"]
         kind = "rand" if case["kind"] == "exh" else case["kind"]
         pool, rich = case.get("pool"), case["kind"] in ("rich", "names")
+        if kind == "vals":
+            for _ in range(20):
+                k = rng.randrange(len(ops))
+                yield dict(case, ops=ops[:k] + [self.rand_vop(rng, n)] + ops[k:])
+                yield dict(case, ops=ops + [self.rand_vop(rng, n) for _ in range(3)])
+            return
         for _ in range(20):
             k = rng.randrange(len(ops))
             yield dict(case, kind=kind, ops=ops[:k] + self.gen_history(rng, n, 1, pool, rich) + ops[k:])
